@@ -1309,6 +1309,8 @@ class Engine:
             from .models import shape_len, leaves_of
             for c in M:
                 closed = self.closed_push_loop(uid, c, info, M, shape_len(self, info.src), tuple(leaves_of(info.src)))
+                if closed is None:
+                    closed = self.closed_sum_loop(uid, c, info, M, shape_len(self, info.src), tuple(leaves_of(info.src)))
                 if closed is not None:
                     sub_out[("lv", uid, c)] = closed
         for o in normal:
@@ -1351,6 +1353,28 @@ class Engine:
         if wrap is not None:
             return ("arrayvec", vm, wrap[1])
         return ("collected", vm, "Vec")
+
+    def closed_sum_loop(self, uid, c, info, M, n, leaves):
+        """acc' = acc + g(elem) with g free of loop-carried cells  ==>  acc0 + sum(map(g))  (the same term
+        `iter().map(g).sum()` produces)."""
+        init, step = info.init.get(c), info.step.get(c)
+        if init is None or step is None or step[0] != "add" or len(step) != 3:
+            return None
+        lv = ("lv", uid, c)
+        if step[1] == lv:
+            g = step[2]
+        elif step[2] == lv:
+            g = step[1]
+        else:
+            return None
+        for c2 in M:
+            if contains_term(g, ("lv", uid, c2)):
+                return None
+        self.__dict__.setdefault("vmaps", {})[uid] = leaves
+        total = ("vsum", ("vmap", uid, g, leaves, n))
+        if init in (("gzero",), ("zero",), ("int", 0)):
+            return total
+        return ("add", init, total)
 
     def _emit(self, res, fr, o, state):
         if o[0] == "return":
@@ -1415,7 +1439,10 @@ class CallCtx:
         self.oq = oq
 
     def fresh_ctx(self):
-        return (self.fr.callpath + (self.site,), tuple(("idx", u) for u in self.eng.binders))
+        # the identity of a fresh draw: call path + the iteration it happens in (symbolic index of every enclosing
+        # summarised loop, concrete iteration number of every enclosing unrolled loop)
+        un = self.eng.unroll
+        return (self.fr.callpath + (self.site,), tuple(("int", un[u][0]) if u in un else ("idx", u) for u in self.eng.binders))
 
     def dest_ty(self):
         return self.eng.local_ty(self.fr, self.term["dest"])
